@@ -75,6 +75,7 @@ type connState struct {
 	tainted   bool  // in-flight corruption hit this connection: sender-side models no longer describe the bytes
 	msgIdx    int   // index in c.Msgs of the message the current unit starts at (-1: unknown)
 	msgStarts []int // stream offsets of c.Msgs
+	hist      []int // accumulating drivers: start offsets of the earlier units parsed into the same object
 	results   []oracle.UnitResult
 	usedPool  bool
 }
@@ -258,8 +259,13 @@ func (w *World) acquire(cs *connState) sut.Driver {
 		w.pool[c.Obj] = d
 		return d
 	}
-	// a used object: re-initialise it the documented way
-	d.Reset(c.ResetBy)
+	// a used object: re-initialise it the documented way - Reset(), or the init operation,
+	// which may come with other caller arrays than the object had before
+	if c.ResetBy == sut.ByInit {
+		d.Reinit(c.Cfg)
+	} else {
+		d.Reset(sut.ByReset)
+	}
 	if w.st != nil {
 		w.st.probe("pool-reuse")
 	}
@@ -279,6 +285,7 @@ func (w *World) beginUnit(cs *connState) {
 	cs.drv = w.acquire(cs)
 	cs.cont = cs.start
 	cs.calls = 0
+	cs.hist = cs.hist[:0]
 	cs.shadows = cs.shadows[:0]
 	if w.mon.C11 && cs.start > 0 {
 		cs.shadows = append(cs.shadows, lockShadow{what: "C11", drv: sut.New(cs.c.Cfg), shift: cs.start, cont: 0})
@@ -309,6 +316,8 @@ func (w *World) pump(cs *connState) {
 				break // nothing unparsed
 			}
 			w.beginUnit(cs)
+		} else if cs.calls == 0 && cs.start >= cs.L {
+			break // accumulating object, next header body not there yet
 		}
 		buf := cs.full[:cs.L]
 		eofCall := cs.eof
@@ -344,6 +353,19 @@ func (w *World) pump(cs *connState) {
 			return
 		}
 		definitive := err != sipsp.ErrHdrMoreBytes
+		// the library keeps to the window of the caller's arrays (C13; after a reset also C12)
+		if w.mon.C13 || w.mon.C12 {
+			if ac, ok := cs.drv.(sut.ArrayChecker); ok {
+				if d := ac.Arrays(); d != "" {
+					prop := "C13"
+					if !w.mon.C13 {
+						prop = "C12"
+					}
+					w.fail(cs, prop, "caller-array", fmt.Sprintf("%s call #%d (pooled=%v): %s", kind, cs.calls, cs.c.Obj >= 0, d))
+					return
+				}
+			}
+		}
 
 		// C01 / C02: one call on a brand-new object given the same prefix
 		var oneRet int
@@ -353,7 +375,16 @@ func (w *World) pump(cs *connState) {
 			w.oneShot = sut.Renew(w.oneShot, cs.c.Cfg)
 			sh := w.oneShot
 			var p string
-			oneRet, oneErr, p = guarded(sh, buf, cs.start, eofCall)
+			// (an accumulating object's earlier header bodies are complete in this prefix: the
+			// brand-new object parses each of them with one call first)
+			for _, hs := range cs.hist {
+				if _, _, p = guarded(sh, buf, hs, false); p != "" {
+					break
+				}
+			}
+			if p == "" {
+				oneRet, oneErr, p = guarded(sh, buf, cs.start, eofCall)
+			}
 			haveOne = true
 			rb := &w.recB
 			rb.Reset(cs.start, len(buf))
@@ -463,6 +494,23 @@ func (w *World) pump(cs *connState) {
 		if w.v != nil {
 			return
 		}
+		if cs.drv.Continues(err) && ret <= cs.start {
+			// a unit that consumed nothing cannot be followed by another one at the same place
+			cs.closed = true
+			cs.drv = nil
+			return
+		}
+		if cs.drv.Continues(err) && cs.drv.Accumulates() {
+			// next header body into the same object: no reset, shadows stay, no compaction
+			// (the object holds offsets into this buffer)
+			cs.hist = append(cs.hist, cs.start)
+			cs.start, cs.cont, cs.calls = ret, ret, 0
+			cs.unit++
+			if w.st != nil {
+				w.st.probe("accumulated-header-body")
+			}
+			continue
+		}
 		if cs.drv.Continues(err) {
 			cs.start = ret
 			cs.cont = ret
@@ -501,6 +549,9 @@ func (w *World) diff(a, b sut.Driver, bufA []byte, baseA, baseB int, bufB []byte
 func (w *World) checkForks(cs *connState, buf []byte, baseRet int, baseErr sipsp.ErrorHdr) string {
 	exempt := false
 	base := sut.New(cs.c.Cfg)
+	for _, hs := range cs.hist {
+		guarded(base, buf, hs, false)
+	}
 	guarded(base, buf, cs.start, false)
 	if m, ok := base.(*sut.MsgD); ok {
 		// body extent of a message without Content-Length parsed with neither
@@ -523,6 +574,9 @@ func (w *World) checkForks(cs *connState, buf []byte, baseRet int, baseErr sipsp
 			return ""
 		}
 		sh := sut.New(cs.c.Cfg)
+		for _, hs := range cs.hist {
+			guarded(sh, ext, hs, false)
+		}
 		r, e, p := guarded(sh, ext, cs.start, false)
 		if p != "" {
 			return fmt.Sprintf("one-shot on prefix+%s panicked: %s", what, p)
